@@ -399,6 +399,7 @@ func runC20(cx *Ctx, r *Report) {
 	// (4) generated-code conformance
 	c20GoGoConformance(cx, r, gogo)
 	c20PulsarConformance(cx, r, api)
+	c20ApiGrpc(cx, r, api)
 	r.requireCount("desc-equal", 45)
 	r.requireCount("msg-registered", 60)
 	r.requireCount("signer", 60)
